@@ -32,5 +32,5 @@ def t_walk(chk, ix):
 
 def run(chk, ix, tier):
     run_parallel(chk, [(t_walk, ()), (T.t_run_model, (("Y4",),))])
-    for r, n in (("Y1", 6), ("Y2", 20), ("Y4", 1), ("Y5", 2), ("Y6", 4), ("Y7", 20)):
+    for r, n in (("Y1", 6), ("Y2", 20), ("Y4", 1), ("Y5", 2), ("Y6", 2), ("Y7", 20)):
         chk.require_instances(r, n)
